@@ -124,7 +124,12 @@ def run_history(case):
     corpus, nmcompare, nmref, semeq, C07 = _W['corpus'], _W['nmcompare'], _W['nmref'], _W['semeq'], _W['C07']
     out = dict(case=case, results=[], status='ok', queries=0, solver_s=0.0, stats={})
     try:
-        m = C07.get_start(start) if start.startswith('gen:') else corpus.load(os.path.join(corpus.TESTDATA, start))
+        if start.startswith('disk:'):
+            if start not in _DISK:
+                _DISK[start] = _disk_start(start)
+            m = _DISK[start]
+        else:
+            m = C07.get_start(start) if start.startswith('gen:') else corpus.load(os.path.join(corpus.TESTDATA, start))
     except Exception as e:  # noqa
         out['status'] = f'start-unreadable: {type(e).__name__}'
         return out
@@ -180,6 +185,8 @@ def run_history(case):
                                                      kind='written model cannot be read back')))
             m2 = None
         if m2 is not None:
+            d = _dataset_diff(m, m2)
+            res.append(('readback:dataset', 'violated' if d else 'discharged', d))
             import sym2smt
             eq2 = sym2smt.Equiv(timeout_ms=15000)
             ren = readback_rename(m, m2)
@@ -212,6 +219,61 @@ def run_history(case):
         shutil.rmtree(tmp, ignore_errors=True)
     out.update(results=res, queries=nq, solver_s=ss, stats=stats)
     return out
+
+
+def _dataset_diff(m, m2):
+    """the dataset read back through the generated $DATA / $INPUT equals the in-memory dataset (same records in the
+    same order; every column of the in-memory dataset that is not dropped comes back with the same values)"""
+    import numpy as np
+    a, b = m.dataset, m2.dataset
+    if a is None or b is None:
+        return dict(what='dataset missing', before=a is not None, after=b is not None) if (a is None) != (b is None) else None
+    if len(a) != len(b):
+        return dict(what='number of records', before=len(a), after=len(b))
+    for col in a.columns:
+        try:
+            if m.datainfo[col].drop:
+                continue
+        except (IndexError, KeyError):
+            continue                # a column without metadata (dropped placeholder): not part of the model's data
+        if col not in b.columns:
+            return dict(what='column lost', column=col)
+        x, y = a[col].to_numpy(), b[col].to_numpy()
+        try:
+            x, y = x.astype(float), y.astype(float)
+            ok = np.allclose(x, y, rtol=1e-9, atol=0, equal_nan=True)
+        except (TypeError, ValueError):
+            ok = [str(u) for u in x] == [str(v) for v in y]
+        if not ok:
+            bad = [i for i in range(len(x)) if str(x[i]) != str(y[i])][:3]
+            return dict(what='column values differ after write / read', column=col,
+                        rows=[(int(i), str(x[i]), str(y[i])) for i in bad])
+    return None
+
+
+def _disk_start(label):
+    """start models that come from disk (datainfo.path set to a written csv) and whose dataset carries a CMT column:
+    built once per worker in a directory that lives as long as the process"""
+    import atexit
+    pm, corpus = _W['pm'], _W['corpus']
+    tmp = tempfile.mkdtemp(prefix='c02disk_')
+    atexit.register(shutil.rmtree, tmp, True)
+    m = corpus.load(os.path.join(corpus.TESTDATA, 'pheno_real.mod'))
+    m = pm.set_first_order_absorption(m)
+    if label == 'disk:fo_abs+periph+cmt':
+        m = pm.add_peripheral_compartment(m)
+    m = pm.add_cmt(m)
+    # observation records name their compartment explicitly (CENTRAL) instead of 0 = default observation compartment
+    df = m.dataset.copy()
+    central = m.statements.ode_system.compartment_names.index('CENTRAL') + 1
+    df.loc[df['AMT'] == 0, 'CMT'] = central
+    m = m.replace(dataset=df)
+    path = os.path.join(tmp, 'run1.mod')
+    pm.write_model(m, path, force=True)
+    return pm.read_model(path)
+
+
+_DISK = {}
 
 
 def readback_rename(m, m2):
@@ -267,7 +329,12 @@ def main():
         ('cov2_pw', 'cov1_cat2', 'set_inits'), ('cov1_cat2', 'cov2_lin', 'rm_cov1'), ('cov2_lin', 'cov1_cat2', 'fix_first'))]
     # generated start model: a statement with an explicit `ELSE X = 0` is re-emitted because its thetas are renumbered
     gen = [('gen:else_zero_periph', h) for h in ((), ('rm_periph',), ('set_inits',), ('add_iiv',), ('rm_periph', 'add_periph'))]
-    cases = cases[:40] + sib + cov3 + gen + cases[40:]
+    # start models that were written to and read from disk and carry a CMT column: the data file must be re-written when
+    # a transformation renumbers the compartments
+    disk = [(s0, h) for s0 in ('disk:fo_abs+cmt', 'disk:fo_abs+periph+cmt')
+            for h in ((), ('transits1',), ('transits3',), ('bolus_abs',), ('zo_abs',), ('add_periph',), ('rm_periph',),
+                      ('add_lag',), ('transits1', 'add_periph'), ('bolus_abs', 'fo_abs'))]
+    cases = cases[:40] + sib + cov3 + gen + disk + cases[40:]
     nproc = int(os.environ.get('VERIF_JOBS', 0)) or min(16, os.cpu_count() or 4)
     t0 = time.time()
     stats = dict(unsat=0, sat_confirmed=0, sat_unreplayable=0, unknown=0, unsupported=0)
